@@ -46,8 +46,104 @@ SPACES = {
 }
 
 
+SELECT_ENV = '''
+from ptera import tag
+from ptera.tools import lt
+
+def f(x, y=1):
+    z = x + y
+    return z
+
+def g(x):
+    y = f(x)
+    return y
+
+class K:
+    def m(self, x):
+        y = x
+        return y
+
+obj = K()
+other = K()
+'''
+
+# groups of texts that must resolve (select) to one and the same object (predicates are left out:
+# evaluating `lt(3)` yields a new function object every time, so resolved selectors legitimately differ)
+SELECT_GROUPS = [
+    ["f > z", "f(!z)", "f() > z", "(f) > z"],
+    ["g > f > z", "g > (f > z)", "g(f(!z))", "g() > f(!z)"],
+    ["f(x) > z", "f(x, !z)"],
+    ["f(x=1) > z", "f(x=1, !z)"],
+    ["f > z:@A", "f(!z:@A)"],
+    ["f() as r", "f(!#value as r)"],
+    ["K.m > y", "K.m(!y)"],
+    ["obj.m > y", "obj.m(!y)", "obj.m() > y"],
+    ["other.m > y", "other.m(!y)"],
+    ["g > obj.m > y", "g(obj.m(!y))"],
+    ["f > $v", "f > * as v", "f(!$v)"],
+]
+# selectors of different meaning must not be merged
+SELECT_DISTINCT = [("obj.m > y", "other.m > y"), ("obj.m > y", "K.m > y"), ("f(x=1) > z", "f(x=2) > z")]
+
+# (text, name of the focus variable, names marked with the second focus)
+FOCUS_CASES = [
+    ("f(!a, !!b)", "a"), ("f(!!b, !a)", "a"), ("f(!!b) > a", "a"), ("g(!!x) > f > a", "a"), ("g(x, !!y) > f(!a)", "a"),
+    ("f(a, !b)", "b"), ("f(a) > b", "b"), ("f > g > b", "b"), ("f(a, g(!b), h(c))", "b"), ("f(!b as q)", "b"),
+]
+
+
+def check_select_level(part):
+    from ptera.selector import select, parse
+    from pv.core import world
+
+    ns = world.make_module(SELECT_ENV)
+    for group in SELECT_GROUPS:
+        part["cases"] += 1
+        part["nontrivial"] += 1
+        objs = []
+        for text in group:
+            for rep in range(2):  # compiling the same text twice must also give the same object
+                part["evaluations"] += 1
+                part["steps"] += 1
+                try:
+                    objs.append((text, select(text, env=ns)))
+                except BaseException as e:
+                    part["violations"].append(violation(
+                        PROP, "spelling-rejected", {"select": text}, f"select({text!r}) raised {type(e).__name__}: {e}", tags=["select"]))
+        for text, o in objs[1:]:
+            if objs and o is not objs[0][1]:
+                part["violations"].append(violation(
+                    PROP, "spellings-differ", {"select": text, "other": objs[0][0]},
+                    f"select({text!r}) and select({objs[0][0]!r}) are structurally equal but not the same object: {o} vs {objs[0][1]}",
+                    tags=["select"]))
+                break
+        part["outcomes"]["select-group"] += 1
+    for a, b in SELECT_DISTINCT:
+        part["cases"] += 1
+        part["evaluations"] += 2
+        if select(a, env=ns) is select(b, env=ns):
+            part["violations"].append(violation(PROP, "distinct-selectors-merged", {"select": a, "other": b},
+                                                f"select({a!r}) and select({b!r}) are one object", tags=["select"]))
+        part["outcomes"]["select-distinct"] += 1
+    for text, fname in FOCUS_CASES:
+        part["cases"] += 1
+        part["evaluations"] += 1
+        part["steps"] += 1
+        sel = parse(text)
+        main = getattr(sel, "main", None)
+        got = getattr(main, "name", None)
+        part["outcomes"]["focus-case"] += 1
+        if got != fname or not getattr(sel, "focus", False):
+            part["violations"].append(violation(
+                PROP, "wrong-focus", {"text": text, "expected_focus": fname},
+                f"the focus of {text!r} is {main!r}, expected the variable {fname!r}", tags=["focus"]))
+        else:
+            part["nontrivial"] += 1
+    part["samples"].append({"select_groups": SELECT_GROUPS[:3], "focus_cases": [c[0] for c in FOCUS_CASES[:4]]})
+
+
 def units(tier):
-    out = [("root",)]
+    out = [("root",), ("select",)]
     for name, menu, width, calls, depth, nch in SPACES[tier]:
         n = len(_ir_list(name, tier))
         chunk = 100 if tier == "quick" else 2000
@@ -131,6 +227,9 @@ def work(unit, tier):
 
     part = new_partial()
     registry = {}
+    if unit[0] == "select":
+        check_select_level(part)
+        return part
     if unit[0] == "root":
         for exp, sps in ROOT_ELEMENTS:
             part["cases"] += 1
@@ -177,6 +276,13 @@ def work(unit, tier):
 
 def replay(case):
     from ptera.selector import parse
+
+    if "select" in case or "expected_focus" in case:
+        part = new_partial()
+        check_select_level(part)
+        key = case.get("select") or case.get("text")
+        bad = [v for v in part["violations"] if key in (v["case"].get("select"), v["case"].get("text"))]
+        return (True, bad[0]["detail"]) if bad else (False, "resolved selectors are identical / focus as marked")
 
     try:
         a = parse(case["text"])
